@@ -379,8 +379,10 @@ class ReadFifoQueueResponse(ModbusResponse):
         :param data: The packet data to decode
         '''
         self.values = []
-        _, count = struct.unpack('>HH', data[0:4])
-        for index in range(0, count - 4):
+        # the byte count covers the two bytes of the fifo count field
+        # and two bytes per value register that follows it
+        byte_count, _ = struct.unpack('>HH', data[0:4])
+        for index in range(0, (byte_count - 2) // 2):
             idx = 4 + index * 2
             self.values.append(struct.unpack('>H', data[idx:idx + 2])[0])
 
